@@ -417,16 +417,27 @@ class HealSparseMap(object):
         """
 
         new_cov_map = self._cov_map.append_pixels(len(self._sparse_map), new_cov_pix, check=False)
-        self._cov_map = new_cov_map
 
         # Use resizing
         oldsize = len(self._sparse_map)
         newsize = oldsize + new_cov_pix.size*self._cov_map.nfine_per_cov
 
         if self._is_wide_mask:
-            self._sparse_map.resize((newsize, self._wide_mask_width), refcheck=False)
+            newshape = (newsize, self._wide_mask_width)
         else:
-            self._sparse_map.resize(newsize, refcheck=False)
+            newshape = newsize
+
+        try:
+            self._sparse_map.resize(newshape, refcheck=False)
+        except ValueError:
+            # The storage does not own its data (e.g. it is a view of a temporary
+            # array or was read from a file), so it cannot be resized in place.
+            new_sparse_map = np.zeros(newshape, dtype=self._sparse_map.dtype)
+            new_sparse_map[0: oldsize] = self._sparse_map
+            self._sparse_map = new_sparse_map
+
+        # The coverage index is only replaced once the storage has grown.
+        self._cov_map = new_cov_map
 
         # Fill with blank values
         self._sparse_map[oldsize:] = self._sparse_map[0]
